@@ -496,9 +496,19 @@ func VerifC02_StreamPack() {
 	}
 	var seen []restic.ID
 	err := streamPack(ctx, beLoad, nil, &zstd.Decoder{}, &crypto.Key{}, packID, blobs, func(h restic.BlobHandle, buf []byte, berr error) error {
-		for _, s := range seen {
-			verifrt.Assert(s != h.ID || nb == 2 && want[0].ID == want[1].ID, "a blob was reported twice")
+		// an ID may be reported as often as the request lists it (equal contents at different offsets)
+		asked, got := 0, 1
+		for _, w := range want {
+			if w.ID == h.ID {
+				asked++
+			}
 		}
+		for _, s := range seen {
+			if s == h.ID {
+				got++
+			}
+		}
+		verifrt.Assert(got <= asked, "a blob was reported more often than it was requested")
 		seen = append(seen, h.ID)
 		verifrt.Assert(len(seen) <= nb, "more callbacks than blobs")
 		if berr == nil {
